@@ -107,6 +107,9 @@ def run(chk):
                     kind = "inverse"
                 elif f.get("op") in ("+=", "-=", "*=", "/=") and len(pts) == 1:
                     kind = "cassign"
+                elif f.get("op") in ("+", "-", "*", "/") and len(pts) == 1 and f.get("const") and shape_of(F, pts[0]) is not None \
+                        and not isinstance(shape_of(F, pts[0]), tuple):
+                    kind = "memop"       # an arithmetic operator written as a const member function
                 else:
                     continue
                 if any(strip_cvref(p) not in FLOATS and not strip_cvref(p).endswith("<%s>" % T) for p in pts):
@@ -133,6 +136,25 @@ def run(chk):
                         B = TA.embed(bs, comps(conv, E0.symbolic(pts[0], "b")))
                         rs = shape_of(F, F.T(f["ret"]))
                         want = TA.BINARY[sn](A, B)
+                        bad = compare(conv, E.rv(res), rs, want)
+                    elif kind == "memop":
+                        bs = shape_of(F, pts[0])
+                        Bv = E0.symbolic(pts[0], "b")
+                        B = TA.embed(bs, comps(conv, Bv)) if bs != "scalar" else conv(Bv)
+                        rs = shape_of(F, F.T(f["ret"]))
+                        op = f["op"]
+                        if op == "+":
+                            want = A + B
+                        elif op == "-":
+                            want = A - B
+                        elif op == "/":
+                            want = A / B
+                        elif bs == "scalar":
+                            want = A * B
+                        elif TA.is_vec(B):
+                            want = TA.matvec(A, B)
+                        else:
+                            want = TA.matmat(A, B)
                         bad = compare(conv, E.rv(res), rs, want)
                     elif kind == "cassign":
                         bs = shape_of(F, pts[0])
